@@ -5,7 +5,7 @@ from __future__ import annotations
 import numpy as np
 
 from .. import gen
-from ..core import case_nprng
+from ..core import case_nprng, interleave
 from ..drivers import index as drv
 from ..drivers import program
 from ..oracles import inv
@@ -161,7 +161,7 @@ def run(rec, hub, tier, seed, shard, nshards, budget):
     inv.register(hub, PROPS)
     rec.require(program.MP15, 100)
     n_prog = 220 if tier == "quick" else 1500
-    work = [("program", i) for i in range(n_prog)] + [("whole", i) for i in range(40 if tier == "quick" else 200)] + [("frames", i) for i in range(150 if tier == "quick" else 1000)] + [("system", i) for i in range(25 if tier == "quick" else 150)]
+    work = interleave([("program", i) for i in range(n_prog)], [("whole", i) for i in range(40 if tier == "quick" else 200)], [("frames", i) for i in range(150 if tier == "quick" else 1000)], [("system", i) for i in range(25 if tier == "quick" else 150)])
     for w, (kind, i) in enumerate(work):
         if not budget.ok():
             break
